@@ -38,6 +38,11 @@ fn choose_tweak(rng: &mut TestRng, notes: &mut Notes) -> Option<Option<Vec<u8>>>
     let t = match rng.below(5) {
         0 => None,
         1 => Some(None),
+        2 => {
+            // the API takes arbitrary tweak data; BIP-341 hashes all of it
+            let len = [0usize, 1, 31, 33, 64, 100][rng.below(6)];
+            Some(Some(rng.bytes(len)))
+        }
         _ => Some(Some(rng.bytes(32))),
     };
     notes.insert(
